@@ -16,11 +16,16 @@ def eff_par(cfg):
 
 class ParDoSpec(SeqSpec):
     component = "pardo"
-    imports = "From Juniper Require Import Common.Base Conc.GoLTS Conc.ParDo."
+    imports = "From Juniper Require Import Common.Base Conc.GoLTS Conc.ParDo.\nFrom Juniper Require Conc.ParDoMatcherComplete."
+    # M: the (reduced) matcher, strict. rejections-certified (informational): every rejection is certified genuine by the
+    # executable convergence test (C13_matcher_rejections_genuine: then no run of the unreduced model has that trace)
     preamble = ("Local Open Scope nat_scope.\n"
                 "Definition chk (c : config * list bool * list ev) : bool := "
-                "let '(cf, g, evs) := c in accepts_history cf g evs.")
-    checkers = {"M": "chk"}
+                "let '(cf, g, evs) := c in accepts_history cf g evs.\n"
+                "Definition chk_cert (c : config * list bool * list ev) : bool := "
+                "let '(cf, g, evs) := c in accepts_history cf g evs || ParDoMatcherComplete.pardo_converged cf g evs.")
+    checkers = {"M": "chk", "rejections-certified": "chk_cert"}
+    informational = {"rejections-certified"}
 
     # ------------------------------------------------------------------ generation
     def gen_one(self, rng, big_ok):
